@@ -298,7 +298,20 @@ if __name__ == "__main__":
 """
 
 
-def run_subprocess(args, files, timeout=120, env_extra=None, start_method=None):
+NOFILE_MAIN = """import resource
+import sys
+
+if __name__ == "__main__":
+    hard = resource.getrlimit(resource.RLIMIT_NOFILE)[1]
+    resource.setrlimit(resource.RLIMIT_NOFILE, (int(sys.argv[1]), hard))
+    from cutadapt.cli import main_cli
+
+    sys.argv = ["cutadapt"] + sys.argv[2:]
+    main_cli()
+"""
+
+
+def run_subprocess(args, files, timeout=120, env_extra=None, start_method=None, nofile=None):
     """Run `python -m cutadapt` as a real process (start_method: run it with that multiprocessing start method -
     'spawn' is the default on macOS/Windows, 'forkserver' the coming default on Linux)."""
     d = tempfile.mkdtemp(prefix="s", dir=scratch_root())
@@ -311,6 +324,12 @@ def run_subprocess(args, files, timeout=120, env_extra=None, start_method=None):
             f.write(START_METHOD_MAIN)
         files = dict(files, **{"_start_method_main.py": b""})
         command = [sys.executable, "_start_method_main.py", start_method]
+    if nofile:
+        # run with a lowered soft limit on open files (the hard limit stays)
+        with open(os.path.join(d, "_nofile_main.py"), "w") as f:
+            f.write(NOFILE_MAIN)
+        files = dict(files, **{"_nofile_main.py": b""})
+        command = [sys.executable, "_nofile_main.py", str(nofile)]
     env = dict(os.environ)
     if env_extra:
         env.update(env_extra)
